@@ -87,6 +87,28 @@ CHECKS = {
   note="schemars parses numeric keywords as f64: the oracle judges the numbers typify was given (schema echoed back through schemars). Without a recognised format probes are clipped to the i64 range (the statement's accepted fallback). " + COMMON_NOTE),
 }
 
+# what the systematic families added to each check's space (DESIGN.md section 12), appended to the level text
+ADD = {
+ "C01": " The depth-2 space includes the systematic families (tagged enums: tagging x ordered variant kinds x leaf; struct members: type x state; unions: {oneOf, anyOf} x ordered operand pairs; allOf refinements; array / tuple forms; string constraints; lifted member-level allOf; near-twin unnamed types; one shape per arm of convert_schema_object) with a `supported fragment` flag: outside it typify may decline a schema, inside it rejection is a violation.",
+ "C02": " The space includes the systematic families listed under C01 (every cell whose schema is in the faithful fragment).",
+ "C03": " Same families as C02; member-wise unions of allOf branches count as declared-only instances.",
+ "C05": " Cells of the systematic families built only from the constraints the statement lists (bounded non-fixed arrays, integer bounds, untyped enums and `format` on enums are not 'enforced constructs'); plus a targeted 'delete a required non-nullable member' mutator for 22 member types (incl. sets, free-form values, $ref sets) in struct and struct-variant position.",
+ "C06": " Default candidates are the hand-listed ones plus candidates derived from each kind's instance universe (valid and invalid by the oracle); kinds for adjacent / untagged / tuple-variant enums, deny lists, patterns; defaults on a recursive reference.",
+ "C07": " Node kinds also include allow-listed objects (constrained newtype around a struct), internally / adjacently tagged and untagged enums and non-exclusive anyOf (struct of flattened Options).",
+ "C08": " Every name is also used as a required-only member, in mixed declared / required-only pairs, next to a flattened additional-properties member, and as externally / internally tagged variant name.",
+ "C09": " Fragment menu of 42 (type lists, formats, const, not-required forms, anyOf, contains, $ref to a oneOf, min/maxProperties); lifted family: two object branches constraining one optional property, ordered pairs of 20 member schemas; ordered triples also in the quick tier.",
+ "C10": " Defaults inside the admitted range must be accepted; near-miss format names (width suffix, case, plural, separator) for number / integer / string formats must behave like no format.",
+ "C11": " Includes the string-constraint, string-refinement and string-union families.",
+ "C13": " Includes the family 'one external path used twice in one type space with every ordered pair of parameter forms' (inline/inline, definition/inline, Vec/inline).",
+ "C14": " Maps and conversion schemas also in nested positions (Vec of maps, map of maps, nullable map, map value, enum variant payloads, constrained-key free-value maps), patches on inline (non-definition) types, and a generic differential: every member type equals its default-settings type under the substitutions the settings imply.",
+ "C16": " Alphabet of 18 ops incl. a self-referential root, cross-batch references and a {$ref, default} member whose target is converted later / earlier; invariant I5: a root addition's id names that root and '#' refers to it; split / listing-order equivalences.",
+ "C17": " Space as C01's depth-2 space incl. the systematic families.",
+ "C18": " 29 member types incl. sets, one-tuples, fixed arrays, keyed maps, inline structs / enums; self-referential structs (self / nullable self / Vec<self> x state x earlier-sorting referrer).",
+ "C19": " Space as C01's depth-2 space incl. the systematic families; any rustc error arising inside the expansion of a derive counts as a missing promised trait.",
+ "C04": " Field types also char, i8..i64, f32, usize, NonZeroU32, BTreeSet; custom default functions (#[serde(default = \"f\")], field type x {zero-like, non-zero} value).",
+ "C12": " Documents include shapes with several internal-tag candidates.",
+}
+
 NOT_YET = "check under construction in this round; no verdict is claimed for it yet"
 
 def main():
@@ -112,7 +134,7 @@ def main():
             m["checks"].append({
              "property_id": pid, "quick_cmd": "./check %s --tier quick" % pid, "thorough_cmd": "./check %s --tier thorough" % pid,
              "evidence_file": "evidence/%s.json" % pid, "replay_cmd_template": "./check %s --replay {path}" % pid,
-             "engine": "tv", "level_claimed": {"category": "model_checking", "text": c["text"], "design_ref": c["design"]},
+             "engine": "tv", "level_claimed": {"category": "model_checking", "text": c["text"] + ADD.get(pid, ""), "design_ref": c["design"]},
              "level_note": c["note"], "technique": c["technique"]})
         else:
             m["not_applicable"].append({"property_id": pid, "reason": NOT_YET})
